@@ -57,7 +57,7 @@ let parse_ups (s : string) : (question * msg) list =
 let same_q (a : question) (b : question) : bool =
   a.q_name = b.q_name && a.q_type = b.q_type && a.q_class = b.q_class
 
-type pred = { p_st : string; p_units : n list list; p_tr : string; p_spec : string; p_unscripted : bool }
+type pred = { p_st : string; p_units : n list list; p_tr : string; p_spec : string; p_unscripted : bool; p_var : string }
 
 let strip2 (b : n list) : n list = match b with _ :: _ :: r -> r | _ -> b
 
@@ -67,14 +67,29 @@ let predict (f : (string * string) list) : (pred, string) result =
   let l = fld f "l" and via = fld f "via" in
   let ups = parse_ups (fld f "ups") in
   let burst = (match fld_opt f "burst" with Some "1" -> true | _ -> false) in
-  let run = (match l with
-    | "gnet" ->
-      (match gnet_feed_dns segs with
-       | Ok ((fs, st), tr) -> Result.Ok (fs, st, tr)
+  (* kind streamtimed (gaps=<ms>,.. idle=<ms>): the readers with their idle timer (Net/FramingTimed.v) *)
+  let timed = (match fld_opt f "gaps" with Some g when g <> "-" && g <> "" -> true | _ -> false) in
+  let tsegs = if not timed then [] else
+      List.map2 (fun g sg -> (nat_of_int (int_of_string g), sg)) (split ',' (fld f "gaps")) segs in
+  let idle = if timed then nat_of_int (int_of_string (fld f "idle")) else nat_of_int 0 in
+  let st_of = (function RdNeedMore -> "open" | RdClosed -> "closed") in
+  let tst_of = (function FtNeedMore -> "open" | FtClosed -> "closed" | FtTimedOut -> "timeout") in
+  let run = (match timed, l with
+    | true, "gnet" ->
+      (match ft_gnet_run_dns idle tsegs with
+       | Ok (fs, st) -> Result.Ok (fs, tst_of st, [])
        | Panic -> Result.Error "PANIC!" | OutOfFuel -> Result.Error "HANG" | Err _ -> Result.Error "ERR")
-    | _ ->
+    | true, _ ->
+      (match ft_tcp_run_dns idle tsegs with
+       | Ok (fs, st) -> Result.Ok (fs, tst_of st, [])
+       | Panic -> Result.Error "PANIC!" | OutOfFuel -> Result.Error "HANG" | Err _ -> Result.Error "ERR")
+    | false, "gnet" ->
+      (match gnet_feed_dns segs with
+       | Ok ((fs, st), tr) -> Result.Ok (fs, st_of st, tr)
+       | Panic -> Result.Error "PANIC!" | OutOfFuel -> Result.Error "HANG" | Err _ -> Result.Error "ERR")
+    | false, _ ->
       (match tcp_run_dns segs with
-       | Ok (fs, st) -> Result.Ok (fs, st, [])
+       | Ok (fs, st) -> Result.Ok (fs, st_of st, [])
        | Panic -> Result.Error "PANIC!" | OutOfFuel -> Result.Error "HANG" | Err _ -> Result.Error "ERR")) in
   match run with
   | Result.Error e -> Result.Error e
@@ -107,6 +122,18 @@ let predict (f : (string * string) list) : (pred, string) result =
     let client = A4 [n_of_int 127; n_of_int 0; n_of_int 0; n_of_int 1] in
     let spec = ref "ok" in
     let unscripted = ref false in
+    (* C13_deadline, evaluated: a paced stream of decodable queries is decoded whole and never timed out; and whether
+       the refuted variant (re-arm only when the bufio reader is drained) would have cut this very schedule *)
+    let var = ref "-" in
+    if timed then begin
+      (match parse_stream (List.concat segs) with
+       | Some sent when List.for_all dns_ok sent && List.for_all (fun (_, sg) -> sg <> []) tsegs ->
+         let holds = if l = "gnet" then ft_gaps_below idle tsegs else ft_paced_segs idle sent tsegs in
+         if holds && not (frames = sent && st = "open") then spec := "FAIL:c13-deadline"
+       | _ -> ());
+      if l <> "gnet" then
+        var := (match ft_tcp_run_dns_drained idle tsegs with Ok (_, FtTimedOut) -> "timeout" | Ok _ -> "same" | _ -> "?")
+    end;
     let units = List.map2 (fun fr rf ->
         match unpack_msg fr with
         | Ok m ->
@@ -139,7 +166,7 @@ let predict (f : (string * string) list) : (pred, string) result =
             (int_of_nat inb) (match act with GaNone -> "none" | GaClose -> "close") in
         (match tr with [] -> "-" | _ -> String.concat ";" (List.map one tr))
       else "-" in
-    Result.Ok { p_st = (match st with RdNeedMore -> "open" | RdClosed -> "closed"); p_units = units; p_tr = trs; p_spec = !spec; p_unscripted = !unscripted }
+    Result.Ok { p_st = st; p_units = units; p_tr = trs; p_spec = !spec; p_unscripted = !unscripted; p_var = !var }
 
 let ans_of (u : n list) : string =
   match u with
@@ -158,8 +185,11 @@ let run_stream parts =
     let ans = (match p.p_units with [] -> "-" | us -> String.concat "," (List.sort compare (List.map ans_of us))) in
     (* a decoded query that is forwarded but has no scripted upstream reply waits for the 6 s request deadline: inconclusive *)
     if p.p_unscripted then "INCONCLUSIVE unscripted-forward || spec=ok" else
-    Printf.sprintf "st=%s n=%d units=%s ans=%s bad=0 alive=%s tr=%s || spec=%s"
+    (* the idle timer fires in the model: when and whether a connection is closed for idleness is outside the property *)
+    if p.p_st = "timeout" then Printf.sprintf "INCONCLUSIVE idle-timeout-in-model || spec=%s" p.p_spec else
+    Printf.sprintf "st=%s n=%d units=%s ans=%s bad=0 alive=%s tr=%s || spec=%s%s"
       p.p_st (List.length p.p_units) (units_str p.p_units) ans alive p.p_tr p.p_spec
+      (if p.p_var = "-" then "" else " drained-variant=" ^ p.p_var)
 
 (* the property oracle on what the IMPLEMENTATION wrote: field raw=<octets read back> appended to the case line *)
 let run_streamspec parts =
@@ -189,4 +219,5 @@ let run_streamspec parts =
 
 let () = register "stream" run_stream
 let () = register "streamgarbage" run_stream
+let () = register "streamtimed" run_stream
 let () = register "streamspec" run_streamspec
